@@ -1,6 +1,7 @@
 // Read histories against the reference cursor model / batch model.
 #pragma once
 #include "common.h"
+#include <sys/mman.h>
 extern "C" int __sanitizer_get_ownership(const volatile void* p);
 
 namespace readhist {
@@ -44,6 +45,17 @@ static inline int64_t pick_k(const ChunkRef& cr, const Op& op, int64_t pos, int6
     }
 }
 
+// A caller that reads "everything" may pass a max_values beyond INT32_MAX together with a buffer that really is that large.
+// One lazily committed mapping per process serves as that buffer: 1-byte BOOLEAN slots at offset 0, int16 levels at 5 GiB.
+static inline uint8_t* huge_region() {
+    static uint8_t* base = nullptr;
+    if (!base) {
+        void* p = mmap(nullptr, 14ull << 30, PROT_READ | PROT_WRITE, MAP_PRIVATE | MAP_ANONYMOUS | MAP_NORESERVE, -1, 0);
+        base = p == MAP_FAILED ? nullptr : (uint8_t*)p;
+    }
+    return base;
+}
+
 // Executes a history of column-reader calls on one chunk and checks every result against the cursor model.
 static inline void run_column_history(carquet_reader_t* r, const ChunkRef& cr, const std::vector<Op>& ops, const char* where, Transcript* tr) {
     const Col& c = *cr.c; const Chunk& want = *cr.want;
@@ -59,7 +71,12 @@ static inline void run_column_history(carquet_reader_t* r, const ChunkRef& cr, c
             int64_t k = kind == 0 ? remaining : pick_k(cr, op, pos, remaining);
             bool with_def = op.with_def;
             bool with_rep = op.with_rep || c.max_rep > 0;
-            exec::Buf vals(w * (size_t)k), defs(2 * (size_t)k, 0x7E), reps(2 * (size_t)k, 0x7E);
+            // BOOLEAN, not repeated: now and then the count is beyond 32 bits and the buffers are honest about it
+            bool huge = c.type == T_BOOL && c.max_rep == 0 && !op.with_rep && op.kcode == 2 && (op.r1 & 3) == 0 && remaining > 0 && huge_region() != nullptr;
+            if (huge) { static const int64_t HUGE_K[] = {1ll << 31, (1ll << 31) + 5, 1ll << 32, (1ll << 32) + 3}; k = HUGE_K[(op.r1 >> 2) & 3]; with_rep = false; SIM_COUNT("probe.read_batch_max_values_beyond_int32"); }
+            exec::Buf vals_b(huge ? 1 : w * (size_t)k), defs_b(huge ? 2 : 2 * (size_t)k, 0x7E), reps(huge ? 2 : 2 * (size_t)k, 0x7E);
+            struct Ptr { uint8_t* p; uint8_t* get() const { return p; } };
+            Ptr vals{huge ? huge_region() : vals_b.get()}, defs{huge ? huge_region() + (5ull << 30) : defs_b.get()};
             int64_t n = cq::column_read_batch(col, vals.get(), k, with_def ? (int16_t*)defs.get() : nullptr, with_rep ? (int16_t*)reps.get() : nullptr);
             if (tr) { tr->add((uint64_t)k); tr->add((uint64_t)n); }
             int64_t cap = std::min(k, remaining);
